@@ -77,6 +77,7 @@ func init() {
 		Gen: func(t *rapid.T, thorough bool) *Script {
 			o := mixedOpts(thorough)
 			o.Faults, o.MIG, o.MinRuntime = false, false, true
+			o.MidEvict = true
 			if chance(t, "protectedelastic", 25) {
 				return GenProtectedElasticScript(t, "C06", o)
 			}
